@@ -5,6 +5,7 @@ import (
 	"errors"
 	"fmt"
 	"net/netip"
+	"runtime"
 	"sync"
 	"time"
 
@@ -201,7 +202,21 @@ func runQuery(h *server_handler.EntryHandler, sp *spy, rec *Recorder, q Query) (
 	if !q.UDP && q.TCPf {
 		pack = pool.PackTCPBuffer
 	}
+	baseline := runtime.NumGoroutine()
 	payload := h.Handle(context.Background(), in, server.QueryMeta{FromUDP: q.UDP, ClientAddr: q.Addr}, pack)
+	// dual_selector and fallback leave sub-executions running on context
+	// copies when they return early; join them (they are the only goroutines
+	// started while Handle ran) so that their effects belong to this query.
+	for i := 0; runtime.NumGoroutine() > baseline; i++ {
+		if i > 2000000 {
+			return QObs{}, errors.New("goroutines started by Handle do not end")
+		}
+		if i < 1000 {
+			runtime.Gosched()
+		} else {
+			time.Sleep(50 * time.Microsecond)
+		}
+	}
 	seen := rec.take()
 	o := QObs{Seen: len(seen)}
 	seenC := make([]string, len(seen))
@@ -254,10 +269,11 @@ type Result struct {
 	Text [][]sequence.RuleArgs
 }
 
-// maxRun: the cache reads the clock; a run is only accepted when all of it
-// took less than this (then no entry expired and no whole second passed), and
-// is repeated on fresh plugins otherwise.
-const maxRun = 700 * time.Millisecond
+// maxRun: the cache reads the clock, dual_selector waits at most 500 ms for
+// its reference query; a run is only accepted when all of it took less than
+// this (then no entry expired, no whole second passed and no grace period ran
+// out), and is repeated on fresh plugins otherwise.
+const maxRun = 400 * time.Millisecond
 
 var ErrSlow = errors.New("run too slow, repeated without success")
 
